@@ -265,8 +265,34 @@ def update_value_order():
     return 'bool', cbool(ok and ok2)
 
 
+def _callback_try():
+    f = find_func(find_class(parse(CLIENT), 'ProxyClient'), 'callback')
+    loops = [n for n in f.body if isinstance(n, ast.For)]
+    if len(loops) != 1:
+        raise Shape('callback: expected one for loop')
+    lp = loops[0]
+    if len(lp.body) != 1 or not isinstance(lp.body[0], ast.Try):
+        raise Shape('callback: loop body is not a single try statement')
+    return lp, lp.body[0]
+
+
+def unregister_handler_checks_membership():
+    """ProxyClient.callback (since 4741ef2): the handler of UnregisterCallback is exactly
+    `if cbfunc in cblist: cblist.remove(cbfunc)` -- a callback that is not in the held list any more (unregistered by
+    another callback during the dispatch) is not removed and no exception leaves the handler; no else branch, no
+    finally / else clause on the try"""
+    _lp, tr = _callback_try()
+    ok = len(tr.handlers) == 2 and not tr.orelse and not tr.finalbody \
+        and _nospace(tr.handlers[0].type) == 'UnregisterCallback' and len(tr.handlers[0].body) == 1
+    if ok:
+        st = tr.handlers[0].body[0]
+        ok = isinstance(st, ast.If) and _nospace(st.test) == 'cbfuncincblist' and not st.orelse \
+            and [_nospace(x) for x in st.body] == ['cblist.remove(cbfunc)']
+    return 'bool', cbool(ok)
+
+
 def callback_iterates_copy():
-    """ProxyClient.callback: `for cbfunc in list(cblist)` with try/except UnregisterCallback -> cblist.remove(cbfunc)"""
+    """ProxyClient.callback: `for cbfunc in list(cblist)` with try/except UnregisterCallback -> (guarded) cblist.remove(cbfunc)"""
     f = find_func(find_class(parse(CLIENT), 'ProxyClient'), 'callback')
     loops = [n for n in f.body if isinstance(n, ast.For)]
     if len(loops) != 1:
@@ -277,7 +303,7 @@ def callback_iterates_copy():
         tr = lp.body[0]
         ok = _nospace(tr.body[0]) == 'cbfunc(*args)' and len(tr.handlers) == 2 \
             and _nospace(tr.handlers[0].type) == 'UnregisterCallback' \
-            and [_nospace(s) for s in tr.handlers[0].body] == ['cblist.remove(cbfunc)'] \
+            and [_nospace(s) for s in ast.walk(tr.handlers[0]) if isinstance(s, ast.Expr)] == ['cblist.remove(cbfunc)'] \
             and _nospace(tr.handlers[1].type) == 'Exception'
     return 'bool', cbool(ok)
 
@@ -355,7 +381,7 @@ def array_validate_pads_previous():
 
 FACTS = [array_validate_pads_previous, predefined_names, error_classes, error_names, error_default_is_InternalError, update_messages_ok,
          timestamp_clamped_before_update, reply_update_precedes_release, reply_error_not_stored_again,
-         shorthand_lookup_shape, update_value_order, callback_iterates_copy,
+         shorthand_lookup_shape, update_value_order, callback_iterates_copy, unregister_handler_checks_membership,
          register_appends_in_place, dispatch_removes_from_fetched_list, internalize_shape]
 
 _cl = lambda: find_class(parse(CLIENT), 'SecopClient')
